@@ -42,7 +42,8 @@ def spentOps (pool : List Tx) (done : List Nat) : List OutPoint :=
 
 /-- Connect one more transaction `j` after the transactions `st.1`; `st.2` collects the real fee
 (inputs − outputs) of each connected transaction.  Fails on an unknown index, a double spend (within
-the transaction or against an earlier one), a missing / immature input, or outputs above inputs. -/
+the transaction or against an earlier one), a missing / immature input, input value above 21e6 BTC (then so is
+no output: outputs are covered by inputs), or outputs above inputs. -/
 def connectStep (e : Env) (pool : List Tx) (st : List Nat × List Int) (j : Nat) :
     Option (List Nat × List Int) :=
   match pool[j]? with
@@ -55,7 +56,8 @@ def connectStep (e : Env) (pool : List Tx) (st : List Nat × List Int) (j : Nat)
       match inputsValue e pool st.1 t.ins with
       | none => none
       | some total =>
-        if total < sumOuts t then none
+        if total > MAX_SATOSHI then none
+        else if total < sumOuts t then none
         else some (st.1 ++ [j], st.2 ++ [(total : Int) - (sumOuts t : Int)])
 
 /-- Connect the selected transactions in block order on top of the chain; the result is the list of
@@ -89,11 +91,31 @@ def depsBefore (pool : List Tx) : List Nat → List Nat → Bool
   | [], _ => true
   | j :: rest, earlier => depCheck pool j earlier && depsBefore pool rest (earlier ++ [j])
 
+/-- BIP68 (`calcSequenceLock` + `SequenceLockActive` as `checkConnectBlock` applies them): with CSV
+active every input of a version ≥ 2 transaction whose sequence has bit 31 clear carries a relative
+lock, in blocks (height of the spent output + n − 1 must be below the block height) or, with bit 22, in
+512-second units (median time before the spent output's block + n·512 − 1 must be below the median
+time before the new block).  Outputs of transactions of the same block count as confirmed in it. -/
+def seqLocksOk (e : Env) (t : Tx) : Bool :=
+  if !e.csv || decide (t.version < 2) || isCoinbase t then true
+  else
+    decide (-1 < e.nextHeight) && decide (-1 < e.mtp) &&
+    t.ins.all (fun i =>
+      if (i.sequence / SEQ_DISABLED) % 2 = 1 then true
+      else
+        let rel : Int := ((i.sequence % SEQ_MASK : Nat) : Int)
+        let src : Int × Int := match i.chain with
+          | some c => (c.height, c.mtpPrev)
+          | none => (e.nextHeight, e.mtp)
+        if (i.sequence / SEQ_IS_SECONDS) % 2 = 1 then decide (src.2 + rel * (SEQ_GRANULARITY : Int) - 1 < e.mtp)
+        else decide (src.1 + rel - 1 < e.nextHeight))
+
 /-- The consensus rules a block must satisfy, as far as they concern the choice of transactions
 (`CheckConnectBlockTemplate`): valid indices, no second coinbase, no duplicates, every transaction
 final on the consensus clock, inputs connect in order without double spends, the coinbase does not
 overpay, scripts hold, sigop-cost and weight limits, witness data only with segwit and then with a
-commitment. -/
+commitment, BIP68 sequence locks, header time after the median time and at most two hours ahead of the
+node's clock. -/
 def blockValid (e : Env) (pool : List Tx) (tpl : Template) : Bool :=
   tpl.sel.all (· < pool.length)
   && tpl.sel.Nodup
@@ -107,6 +129,9 @@ def blockValid (e : Env) (pool : List Tx) (tpl : Template) : Bool :=
   && decide (blockWeight e pool tpl ≤ MAX_BLOCK_WEIGHT)
   && (e.segwit || (txsOf pool tpl.sel).all (fun t => !t.hasWitness))
   && (tpl.commitment || (txsOf pool tpl.sel).all (fun t => !t.hasWitness))
+  && (txsOf pool tpl.sel).all (seqLocksOk e)
+  && decide (e.mtp < headerTime e)
+  && decide (headerTime e ≤ e.now + MAX_TIME_OFFSET)
 
 /-- Reported per-transaction fees are the real ones and entry 0 is minus their sum; the coinbase pays
 exactly subsidy + fees. -/
